@@ -49,6 +49,39 @@ PRIMS += [
 PR = {p.name: p for p in PRIMS}
 TOO_SMALL = (-3) & 0xFF
 
+# ---- C++ support library: bitspan / const_bitspan members behind extern "C" wrappers with the SAME names and argument lists
+INC_CPP = "<nunavut/support/serialization.hpp>"
+_NS = "nunavut::support::"
+_RC = "return r ? (int8_t) 0 : (int8_t)(-(int) r.error());"
+_FB32 = "float f; memcpy(&f, &x, 4);"
+_FB64 = "double f; memcpy(&f, &x, 8);"
+PRIMS_CPP = [
+    Prim("Sat", "size", [("size", "n"), ("size", "off"), ("size", "len")],
+         f"static uint8_t dummy[1]; return {_NS}const_bitspan(dummy, n, off).saturateBufferFragmentBitLength(len);"),
+    Prim("CopyBits", "void", [("buf", "dst"), ("size", "doff"), ("size", "len"), ("cbuf", "src"), ("size", "soff")],
+         f"{_NS}const_bitspan(src, (soff + len + 7U) / 8U, soff).copyTo({_NS}bitspan(dst, (doff + len + 7U) / 8U, doff), len);"),
+    Prim("GetBits", "void", [("buf", "out"), ("cbuf", "buf"), ("size", "n"), ("size", "off"), ("size", "len")],
+         f"{_NS}const_bitspan(buf, n, off).getBits({_NS}bytespan(out, (len + 7U) / 8U), len);"),
+    Prim("SetBit", "i8", [("buf", "buf"), ("size", "n"), ("size", "off"), ("u8", "v")], f"auto r = {_NS}bitspan(buf, n, off).setBit(v != 0); {_RC}"),
+    Prim("SetUxx", "i8", [("buf", "buf"), ("size", "n"), ("size", "off"), ("u64", "v"), ("u8", "len")], f"auto r = {_NS}bitspan(buf, n, off).setUxx(v, len); {_RC}"),
+    Prim("SetIxx", "i8", [("buf", "buf"), ("size", "n"), ("size", "off"), ("u64", "v"), ("u8", "len")], f"auto r = {_NS}bitspan(buf, n, off).setIxx((int64_t) v, len); {_RC}"),
+    Prim("GetBit", "bool", [("cbuf", "buf"), ("size", "n"), ("size", "off")], f"return {_NS}const_bitspan(buf, n, off).getBit();"),
+    Prim("SetZeros", "i8", [("buf", "buf"), ("size", "n"), ("size", "off"), ("u8", "len")], f"auto r = {_NS}bitspan(buf, n, off).setZeros(len); {_RC}"),
+]
+for _w in (8, 16, 32, 64):
+    PRIMS_CPP.append(Prim(f"GetU{_w}", f"u{_w}", [("cbuf", "buf"), ("size", "n"), ("size", "off"), ("u8", "len")], f"return {_NS}const_bitspan(buf, n, off).getU{_w}(len);"))
+    PRIMS_CPP.append(Prim(f"GetI{_w}", f"u{_w}", [("cbuf", "buf"), ("size", "n"), ("size", "off"), ("u8", "len")], f"return (uint{_w}_t) {_NS}const_bitspan(buf, n, off).getI{_w}(len);"))
+PRIMS_CPP += [
+    Prim("SetF16", "i8", [("buf", "buf"), ("size", "n"), ("size", "off"), ("u32", "x")], f"{_FB32} auto r = {_NS}bitspan(buf, n, off).setF16(f); {_RC}"),
+    Prim("SetF32", "i8", [("buf", "buf"), ("size", "n"), ("size", "off"), ("u32", "x")], f"{_FB32} auto r = {_NS}bitspan(buf, n, off).setF32(f); {_RC}"),
+    Prim("SetF64", "i8", [("buf", "buf"), ("size", "n"), ("size", "off"), ("u64", "x")], f"{_FB64} auto r = {_NS}bitspan(buf, n, off).setF64(f); {_RC}"),
+    Prim("GetF16", "u32", [("cbuf", "buf"), ("size", "n"), ("size", "off")], f"float f = {_NS}const_bitspan(buf, n, off).getF16(); uint32_t r; memcpy(&r, &f, 4); return r;"),
+    Prim("GetF32", "u32", [("cbuf", "buf"), ("size", "n"), ("size", "off")], f"float f = {_NS}const_bitspan(buf, n, off).getF32(); uint32_t r; memcpy(&r, &f, 4); return r;"),
+    Prim("GetF64", "u64", [("cbuf", "buf"), ("size", "n"), ("size", "off")], f"double f = {_NS}const_bitspan(buf, n, off).getF64(); uint64_t r; memcpy(&r, &f, 8); return r;"),
+]
+PR_CPP = {p.name: p for p in PRIMS_CPP}
+CPP_OPTSETS = {"cpp14": dict(target_endianness="any", asserts=False, std="c++14"), "cpp14+little": dict(target_endianness="little", asserts=False, std="c++14")}
+
 OPTSETS = {
     "any": dict(target_endianness="any", asserts=False),
     "little+asserts": dict(target_endianness="little", asserts=True),
@@ -84,6 +117,9 @@ def shapes(tier: str, prim: str, asserts: bool) -> typing.Iterator[tuple]:
     elif prim == "SetBit":
         for n, o in itertools.product(sizes, range(0, 100)):
             yield (n, o)
+    elif prim == "SetZeros":
+        for n, o, l in itertools.product(sizes, offs, range(0, 34) if q else range(0, 81)):
+            yield (n, o, l)
     elif prim == "GetBit":
         for n, o in itertools.product(sizes, range(0, 100)):
             yield (n, o)
@@ -120,12 +156,17 @@ def _get_window(buf_bytes, nbytes_total, off, ln, width):
     return z3.ZeroExt(width - ln, w) if width > ln else w
 
 
+_ACTIVE = {"table": PR}
+
+
 def make_case(eng: core.Engine, prim: str, shp: tuple) -> typing.Tuple[Case, typing.Callable]:
     """returns the case and spec(st, ret) -> z3 Bool that must hold on every path"""
-    P = PR[prim]
+    P = _ACTIVE["table"][prim]
     if prim == "Sat":
         c = Case(eng, P, {}, {})
         n, off, ln = c.sym["n"], c.sym["off"], c.sym["len"]
+        if _ACTIVE["table"] is PR_CPP:
+            c.st.pc.append(z3.ULE(off, (1 << 62)))
         c.st.pc.append(z3.ULE(n, (1 << 60)))     # buffer sizes up to 2^60 bytes (size*8 must not wrap: documented unit convention)
         bitsz = n * 8
         tail = z3.If(z3.UGE(off, bitsz), z3.BitVecVal(0, 64), bitsz - off)
@@ -207,6 +248,26 @@ def make_case(eng: core.Engine, prim: str, shp: tuple) -> typing.Tuple[Case, typ
                 return z3.And(_retv(r, 8) == 0, keep, f16_pack_faithful(c.sym["x"], field))
             return z3.And(_retv(r, 8) == 0, keep, field == z3.Extract(wl - 1, 0, val))
         return c, spec
+    if prim == "SetZeros":
+        n, o, l = shp
+        c = Case(eng, P, {"buf": n}, {"n": n, "off": o, "len": l})
+
+        def spec(st, r, c=c, n=n, o=o, l=l):
+            fin = c.final(st, "buf")
+            if o + l > 8 * n:
+                return z3.And(_retv(r, 8) == TOO_SMALL, _same(fin, c.init["buf"]))
+            if n == 0 or l == 0:
+                return z3.And(_retv(r, 8) == 0, _same(fin, c.init["buf"]))
+            W = 8 * n
+            old, got = bits_le(c.init["buf"], W), bits_le(fin, W)
+            addressed = z3.BitVecVal(((1 << l) - 1) << o, W)
+            before = z3.BitVecVal((1 << o) - 1, W)
+            # documented: "may overrun up to the next byte boundary": bits after the addressed range inside the last byte are unspecified,
+            # later bytes untouched
+            last_byte_end = ((o + l + 7) // 8) * 8
+            after = z3.BitVecVal(((1 << W) - 1) & ~((1 << last_byte_end) - 1), W)
+            return z3.And(_retv(r, 8) == 0, (got & addressed) == 0, (got & before) == (old & before), (got & after) == (old & after))
+        return c, spec
     if prim == "GetBit":
         n, o = shp
         c = Case(eng, P, {"buf": n}, {"n": n, "off": o})
@@ -275,9 +336,15 @@ def f16_unpack_exact(h16, x32):
 _MODS: typing.Dict[str, core.Module] = {}
 
 
+def table_for(on: str) -> dict:
+    return PR_CPP if on.startswith("cpp") else PR
+
+
 def _chunk_worker(task):
     optname, prim, shps = task
-    eng = core.Engine(_MODS[optname], check_ub=True)
+    _ACTIVE["table"] = table_for(optname)
+    # C++ runs on -O1 IR (templates are only usable inlined): memory obligations only
+    eng = core.Engine(_MODS[optname], check_ub=("mem" if optname.startswith("cpp") else True))
     out = []
     for shp in shps:
         t0 = time.time()
@@ -339,7 +406,7 @@ def _scalars_of(prim: str, shp: tuple) -> dict:
         return {"doff": shp[0], "len": shp[1], "soff": shp[2]}
     if prim == "GetBits":
         return {"n": shp[0], "off": shp[1], "len": shp[2]}
-    if prim in ("SetUxx", "SetIxx") or prim.startswith("GetU") or prim.startswith("GetI"):
+    if prim in ("SetUxx", "SetIxx", "SetZeros") or prim.startswith("GetU") or prim.startswith("GetI"):
         return {"n": shp[0], "off": shp[1], "len": shp[2]}
     if prim in ("Sat", "F16Pack", "F16Unpack"):
         return {}
@@ -349,7 +416,7 @@ def _scalars_of(prim: str, shp: tuple) -> dict:
 # ---------------------------------------------------------------------------------------------- concrete evaluation for replay / cosim
 def concrete_run(eng: core.Engine, prim: str, shp: tuple, inputs: dict):
     """run the interpreter with all-concrete data; returns (ret, {buf: bytes}) or ('violation', kind)"""
-    P = PR[prim]
+    P = _ACTIVE["table"][prim]
     st = core.State()
     args = []
     ptrs = {}
@@ -376,7 +443,7 @@ def concrete_run(eng: core.Engine, prim: str, shp: tuple, inputs: dict):
 def native_args(prim: str, shp: tuple, inputs: dict) -> dict:
     sc = _scalars_of(prim, shp)
     d = {}
-    for k, n in PR[prim].args:
+    for k, n in _ACTIVE["table"][prim].args:
         if k in ("buf", "cbuf"):
             d[n] = bytes.fromhex(inputs["dst" if (prim == "CopyBits" and shp[3] and n == "src") else n])
         else:
@@ -387,7 +454,8 @@ def native_args(prim: str, shp: tuple, inputs: dict) -> dict:
 # ---------------------------------------------------------------------------------------------- main
 def main(tier: str) -> int:
     rep = common.Report("C14", tier, "other")
-    rep.functions = ["nunavutSaturateBufferFragmentBitLength", "nunavutCopyBits", "nunavutGetBits", "nunavutSetBit", "nunavutSetUxx",
+    rep.functions = ["C++: nunavut::support::bitspan::setBit/setUxx/setIxx/setZeros/setF16/32/64, const_bitspan::copyTo/getBits/getBit/getU8..64/getI8..64/"
+                     "getF16/32/64/saturateBufferFragmentBitLength (clang++ -O1 IR)", "nunavutSaturateBufferFragmentBitLength", "nunavutCopyBits", "nunavutGetBits", "nunavutSetBit", "nunavutSetUxx",
                      "nunavutSetIxx", "nunavutGetBit", "nunavutGetU8/16/32/64", "nunavutGetI8/16/32/64", "nunavutFloat16Pack",
                      "nunavutFloat16Unpack", "nunavutSetF16/32/64", "nunavutGetF16/32/64"]
     optnames = ["any", "little+asserts"] if tier == "quick" else list(OPTSETS)
@@ -406,12 +474,25 @@ def main(tier: str) -> int:
             drv = out / "drv.c"
             drv.write_text(unit.driver_tu(INC, PRIMS))
             drivers[on] = build.native(drv, out / "drv", [out], defs)
+        cpp_optnames = ["cpp14"] if tier == "quick" else list(CPP_OPTSETS)
+        for on in cpp_optnames:
+            o = CPP_OPTSETS[on]
+            out = d / on.replace("+", "_")
+            build.nnvg("cpp", out, None, opts=o)
+            tu = out / "w.cpp"
+            tu.write_text(unit.wrapper_tu(INC_CPP, PRIMS_CPP, extern_c=True))
+            _MODS[on] = core.parse_module(build.c_to_ir(tu, [out], "B", [], cxx=True, std=o["std"]))
+            drv = out / "drv.cpp"
+            drv.write_text(unit.driver_tu(INC_CPP, PRIMS_CPP, extern_c=True))
+            drivers[on] = build.native(drv, out / "drv", [out], [], cxx=True, std=o["std"])
+        optnames = optnames + cpp_optnames
         # ---- co-simulation: interpreter (all concrete) vs native binary
         cos_n = cos_bad = 0
         for on in optnames:
-            eng = core.Engine(_MODS[on], check_ub=True)
-            for prim in PR:
-                allsh = list(shapes("quick", prim, OPTSETS[on]["asserts"]))
+            _ACTIVE["table"] = table_for(on)
+            eng = core.Engine(_MODS[on], check_ub=("mem" if on.startswith("cpp") else True))
+            for prim in table_for(on):
+                allsh = list(shapes("quick", prim, _asserts(on)))
                 for shp in rng.sample(allsh, min(4, len(allsh))):
                     case, _ = make_case(eng, prim, shp)
                     inputs = {}
@@ -421,7 +502,7 @@ def main(tier: str) -> int:
                         elif n in case.sym:
                             inputs[n] = rng.randrange(1 << unit.BITS[k]) if prim != "Sat" else rng.randrange(1 << 20)
                     ir_res = concrete_run(eng, prim, shp, inputs)
-                    rc, nat, raw = unit.run_native(drivers[on], PR[prim], native_args(prim, shp, inputs))
+                    rc, nat, raw = unit.run_native(drivers[on], table_for(on)[prim], native_args(prim, shp, inputs))
                     cos_n += 1
                     ok = rc == 0 and ir_res[0] != "violation" and (nat.get("ret") is None or nat["ret"] == ir_res[0]) and \
                         all(nat[n] == ir_res[1][n] for n in ir_res[1])
@@ -433,8 +514,8 @@ def main(tier: str) -> int:
         # ---- the queries
         tasks = []
         for on in optnames:
-            for prim in PR:
-                shs = list(shapes(tier, prim, OPTSETS[on]["asserts"]))
+            for prim in table_for(on):
+                shs = list(shapes(tier, prim, _asserts(on)))
                 csz = 40 if prim not in ("Sat", "F16Pack", "F16Unpack") else 1
                 for i in range(0, len(shs), csz):
                     tasks.append((on, prim, shs[i:i + csz]))
@@ -470,7 +551,8 @@ def main(tier: str) -> int:
                        "nunavutSaturateBufferFragmentBitLength: buffer size <= 2^60 bytes (size*8 must not wrap)",
                        "one-bit signed reads are unspecified by the header's own documentation and are not asserted",
                        "CopyBits with overlapping unaligned ranges is documented undefined and not exercised"]
-    rep.not_covered = ["C++ bitspan members (staged)", "Python Serializer/Deserializer primitives (staged, E4)",
+    rep.not_covered = ["C++ bitspan: subspan/padAndMoveToAlignment as units (exercised through generated codecs only), float16 pack/unpack lemmas (C terms only)",
+                       "Python Serializer/Deserializer primitives (E4 not landed)",
                        "offsets/lengths/sizes beyond the stated ranges"]
     rep.extra["explanation"] = ("own LLVM-IR symbolic executor (llsym) over the freshly generated C support header; per (primitive, shape) one z3 "
                                 "query per path: NOT(spec) under the path condition must be unsat; interpreter obligations (bounds, uninitialised "
@@ -479,19 +561,25 @@ def main(tier: str) -> int:
     return rep.write()
 
 
+def _asserts(on: str) -> bool:
+    return OPTSETS[on]["asserts"] if on in OPTSETS else False
+
+
 def _replay(rep, d, drv, on, prim, shp, verdict, detail, inputs):
-    key = f"{prim}"
+    _ACTIVE["table"] = table_for(on)
+    PRT = table_for(on)
+    key = f"{'cpp:' if on.startswith('cpp') else ''}{prim}"
     what = f"[{on}] {prim}{shp}: {detail}; inputs={inputs}"
     if inputs is None:
         rep.unknown(f"{on}:{prim}:{shp}", "counterexample without a model: " + detail)
         return
     rd = common.replay_dir("C14", dict(on=on, prim=prim, shp=shp, inputs=inputs))
     na = native_args(prim, shp, inputs)
-    argv = " ".join((bytes(v).hex() or "-") if isinstance(v, (bytes, bytearray)) else str(v) for v in (na[n] for _, n in PR[prim].args))
+    argv = " ".join((bytes(v).hex() or "-") if isinstance(v, (bytes, bytearray)) else str(v) for v in (na[n] for _, n in PRT[prim].args))
     (rd / "replay.sh").write_text("#!/bin/bash\n# rebuilds the driver from /repo's current nunavut and runs the counterexample\nset -e\ncd /verif && "
                                   f"PYTHONPATH=/verif .venv/bin/python -m checks.C14 --replay '{on}' {prim} {argv}\n")
     os.chmod(rd / "replay.sh", 0o755)
-    rc, nat, raw = unit.run_native(drv, PR[prim], na)
+    rc, nat, raw = unit.run_native(drv, PRT[prim], na)
     # expected result under the model: evaluate the spec concretely through a fresh symbolic run restricted to the model
     eng = core.Engine(_MODS[on], check_ub=False)
     case, spec = make_case(eng, prim, shp)
@@ -499,8 +587,10 @@ def _replay(rep, d, drv, on, prim, shp, verdict, detail, inputs):
     if verdict == "sat-obligation":
         # confirm with the sanitizer build
         try:
-            san = build.native(drv.with_suffix(".c"), drv.parent / "drv_san", [drv.parent], ["NUNAVUT_ASSERT(x)=assert(x)"] if OPTSETS[on]["asserts"] else [], sanitize=True)
-            rc2, _, raw2 = unit.run_native(san, PR[prim], na)
+            cxx = on.startswith("cpp")
+            san = build.native(drv.with_suffix(".cpp" if cxx else ".c"), drv.parent / "drv_san", [drv.parent], ["NUNAVUT_ASSERT(x)=assert(x)"] if _asserts(on) else [],
+                               cxx=cxx, sanitize=True, std=(CPP_OPTSETS[on]["std"] if cxx else None))
+            rc2, _, raw2 = unit.run_native(san, PRT[prim], na)
             reproduced = rc2 != 0
             raw = raw2
         except Exception as e:  # noqa
@@ -585,11 +675,17 @@ def _native_f16_check(name, vals) -> bool:
 def replay_cli(argv):
     on, prim = argv[0], argv[1]
     with common.scratch("nvc14r_") as d:
-        o = OPTSETS[on]
-        build.nnvg("c", d, None, opts=o)
-        (d / "drv.c").write_text(unit.driver_tu(INC, PRIMS))
-        defs = ["NUNAVUT_ASSERT(x)=assert(x)"] if o["asserts"] else []
-        drv = build.native(d / "drv.c", d / "drv", [d], defs, sanitize=True)
+        if on.startswith("cpp"):
+            o = CPP_OPTSETS[on]
+            build.nnvg("cpp", d, None, opts=o)
+            (d / "drv.cpp").write_text(unit.driver_tu(INC_CPP, PRIMS_CPP, extern_c=True))
+            drv = build.native(d / "drv.cpp", d / "drv", [d], [], cxx=True, sanitize=True, std=o["std"])
+        else:
+            o = OPTSETS[on]
+            build.nnvg("c", d, None, opts=o)
+            (d / "drv.c").write_text(unit.driver_tu(INC, PRIMS))
+            defs = ["NUNAVUT_ASSERT(x)=assert(x)"] if o["asserts"] else []
+            drv = build.native(d / "drv.c", d / "drv", [d], defs, sanitize=True)
         import subprocess
         p = subprocess.run([str(drv), prim] + argv[2:], stdout=subprocess.PIPE, stderr=subprocess.STDOUT, text=True)
         print(p.stdout)
